@@ -30,6 +30,7 @@ type Env struct {
 	atBlock  *ssa.BasicBlock
 	atIdx    int
 	argVals  map[string]ssa.Value // at a call site: contract parameter name -> actual argument
+	nowSt    *State               // inside old(...): the current state (for now(...))
 }
 
 func (vc *VC) newEnv(st, old *State) *Env {
@@ -390,6 +391,23 @@ func (vc *VC) localByName(name string, env *Env) (TV, bool) {
 		}
 		key, ix := vc.primAddr(d.X, t)
 		return TV{T: t, S: vc.envHeapRead(env, key, t, ix)}, true
+	}
+	// a variable that lives in a memory cell (captured by a closure or address-taken): its debug
+	// references are snapshots of loads/stores; the current value is the content of the cell
+	if al := vc.cellOfVar(d.Object()); al != nil {
+		t := al.Type().Underlying().(*types.Pointer).Elem()
+		if isStruct(t) || isArray(t) {
+			return TV{T: al.Type(), S: vc.val(al).S}, true
+		}
+		if sv, ok := vc.constCell(al); ok {
+			if _, done := vc.vals[sv]; done || isConstLike(sv) {
+				return vc.val(sv), true
+			}
+		}
+		if _, done := vc.vals[al]; done {
+			key, ix := vc.primAddr(al, t)
+			return TV{T: t, S: vc.envHeapRead(env, key, t, ix)}, true
+		}
 	}
 	// staleness: another reference to the same object with a different value
 	// that can execute after `found` and before the point
@@ -806,6 +824,18 @@ func (vc *VC) trCall(x *ECall, env *Env) TV {
 	case "old":
 		e2 := env.child()
 		e2.st = env.old
+		if env.nowSt == nil {
+			e2.nowSt = env.st
+		}
+		return vc.tr(x.Args[0], e2)
+	case "now":
+		// now(e) inside old(...): e evaluated in the current state again
+		if env.nowSt == nil {
+			return vc.tr(x.Args[0], env)
+		}
+		e2 := env.child()
+		e2.st = env.nowSt
+		e2.nowSt = nil
 		return vc.tr(x.Args[0], e2)
 	case "ite":
 		c := vc.trBool(x.Args[0], env)
@@ -1324,4 +1354,29 @@ func replaceSym(t, sym, repl string) string {
 		i = end
 	}
 	return sb.String()
+}
+
+// cellOfVar: the allocation holding a local variable that was not lifted to SSA registers.
+func (vc *VC) cellOfVar(obj types.Object) *ssa.Alloc {
+	if obj == nil || vc.fn == nil {
+		return nil
+	}
+	if al, ok := vc.varCells[obj]; ok {
+		return al
+	}
+	var res *ssa.Alloc
+	for _, al := range vc.fn.Locals {
+		if al.Comment == obj.Name() && al.Pos() == obj.Pos() {
+			res = al
+		}
+	}
+	for _, b := range vc.fn.Blocks {
+		for _, ins := range b.Instrs {
+			if al, ok := ins.(*ssa.Alloc); ok && al.Comment == obj.Name() && al.Pos() == obj.Pos() {
+				res = al
+			}
+		}
+	}
+	vc.varCells[obj] = res
+	return res
 }
